@@ -386,17 +386,30 @@ pub fn run_main(props: &[Property], id: &str, tier: Tier, seed: u64) -> i32 {
         }
     }
 
-    // must-reach classes
+    // must-reach classes: a class the design calls "must be reached" with count 0 points at a generator
+    // regression. It is reported (stdout WARNING + evidence) but it is not a verdict about the code
+    // under test; only with VERIF_STRICT_CLASSES=1 (selftest, development) does it make the run exit 2.
+    // A sub-check that executed no case at all is always inconclusive.
+    let strict_classes = std::env::var("VERIF_STRICT_CLASSES").map(|v| v == "1").unwrap_or(false);
+    let mut unreached: Vec<String> = Vec::new();
     for s in &prop.subs {
-        if let Some(m) = merged.get(s.name()) {
-            for c in s.must_reach() {
-                if m.classes.get(*c).copied().unwrap_or(0) == 0 && m.failure.is_none() && violations.is_empty() {
-                    inconclusive.push(format!("{}: generator never reached class '{}'", s.name(), c));
+        match merged.get(s.name()) {
+            Some(m) => {
+                if m.cases == 0 && m.excluded_known.is_empty() && violations.is_empty() {
+                    inconclusive.push(format!("{}: no case was executed", s.name()));
+                }
+                for c in s.must_reach() {
+                    if m.classes.get(*c).copied().unwrap_or(0) == 0 && violations.is_empty() {
+                        unreached.push(format!("{}: class '{}' was not reached", s.name(), c));
+                    }
                 }
             }
+            None => {}
         }
     }
-
+    if strict_classes {
+        inconclusive.extend(unreached.iter().cloned());
+    }
     // evidence
     let evaluations: u64 = merged.values().map(|m| m.cases).sum();
     let mut samples: Vec<Value> = Vec::new();
@@ -447,6 +460,7 @@ pub fn run_main(props: &[Property], id: &str, tier: Tier, seed: u64) -> i32 {
             "regression_replays": regress_run,
             "known_findings_reported": known_lines.len(),
             "inconclusive": inconclusive,
+            "unreached_must_reach_classes": unreached,
             "libfuzzer": fuzz,
         },
         "assumptions": prop.assumptions,
@@ -457,6 +471,9 @@ pub fn run_main(props: &[Property], id: &str, tier: Tier, seed: u64) -> i32 {
 
     for l in &known_lines {
         println!("{}", l);
+    }
+    for u in &unreached {
+        println!("WARNING generator coverage: {}", u);
     }
     println!(
         "{} {} seed={} evaluations={} distinct_nontrivial={} subchecks={} regressions={} wall={:.1}s",
